@@ -78,6 +78,17 @@ impl World {
                 k.nodes[idx as usize].disk.mkdir_all("dbs");
                 idx
             });
+            with(|k| {
+                for port in [3012, 3013, 3014] {
+                    k.net.addr_owner.insert(format!("10.0.0.{}:{}", i + 1, port), idx);
+                }
+                // messages between nodes are never instantaneous: CPU work costs no simulated time
+                // here, so a zero-latency network would let a reply overtake the sender's own
+                // next instruction (physically implausible schedules)
+                if k.net.latency == (0, 0) {
+                    k.net.latency = (50_000, 50_000);
+                }
+            });
             nodes.push(NodeSpec {
                 idx,
                 tcp: format!("10.0.0.{}:3014", i + 1),
@@ -499,3 +510,106 @@ impl WsClient {
 #[allow(dead_code)]
 pub fn unused(_: &mut dyn Read) {}
 pub const ONE_SEC_NS: u64 = SEC;
+
+// ------------------------------------------------------------------------------------------------
+// clusters
+// ------------------------------------------------------------------------------------------------
+
+pub fn election_timeout_ms() -> u64 {
+    std::env::var("NUN_ELECTION_TIMEOUT").ok().and_then(|s| s.parse().ok()).unwrap_or(1000)
+}
+
+#[derive(Clone, Debug, PartialEq)]
+pub struct NodeView {
+    pub alive: bool,
+    pub role: String,
+    pub process_id: u128,
+    /// member name -> (role, connected/self)
+    pub members: Vec<(String, String, String)>,
+}
+
+impl World {
+    pub fn view(&self, i: usize) -> NodeView {
+        if !self.alive(i) {
+            return NodeView { alive: false, role: "dead".into(), process_id: 0, members: vec![] };
+        }
+        let dbs = match self.dbs(i) {
+            Some(d) => d,
+            None => return NodeView { alive: true, role: "booting".into(), process_id: 0, members: vec![] },
+        };
+        let role = format!("{}", dbs.get_role());
+        let mut members = Vec::new();
+        // never block on the cluster lock: a handler stuck in an election may hold it for a while
+        if let Ok(cs) = dbs.cluster_state.try_lock() {
+            if let Ok(m) = cs.members.try_lock() {
+                for (name, mem) in m.iter() {
+                    let conn = if mem.is_self(&dbs) {
+                        "self"
+                    } else if mem.sender.is_some() {
+                        "connected"
+                    } else {
+                        "disconnected"
+                    };
+                    members.push((name.clone(), format!("{}", mem.role), conn.to_string()));
+                }
+            }
+        }
+        members.sort();
+        NodeView { alive: true, role, process_id: dbs.process_id, members }
+    }
+
+    /// Index of the single primary if the live nodes agree on a well-formed cluster, else a reason.
+    pub fn agreed_primary(&self) -> Result<usize, String> {
+        let n = self.nodes.len();
+        let views: Vec<NodeView> = (0..n).map(|i| self.view(i)).collect();
+        let live: Vec<usize> = (0..n).filter(|i| views[*i].alive).collect();
+        if live.is_empty() {
+            return Err("no live node".into());
+        }
+        let primaries: Vec<usize> = live.iter().cloned().filter(|i| views[*i].role == "Primary").collect();
+        if primaries.len() != 1 {
+            return Err(format!("{} primaries among live nodes: roles {:?}", primaries.len(), live.iter().map(|i| views[*i].role.clone()).collect::<Vec<_>>()));
+        }
+        let p = primaries[0];
+        for &i in live.iter() {
+            if i != p && views[i].role != "Secoundary" {
+                return Err(format!("node {} is {}", i + 1, views[i].role));
+            }
+            // every live node names the same primary in its member table
+            let named: Vec<&(String, String, String)> = views[i].members.iter().filter(|m| m.1 == "Primary").collect();
+            if named.len() != 1 || named[0].0 != self.nodes[p].tcp {
+                return Err(format!("node {} names primaries {:?}, expected {}", i + 1, named, self.nodes[p].tcp));
+            }
+            // and knows every other live node
+            for &j in live.iter() {
+                if !views[i].members.iter().any(|m| m.0 == self.nodes[j].tcp) {
+                    return Err(format!("node {} does not list node {}", i + 1, j + 1));
+                }
+            }
+        }
+        Ok(p)
+    }
+
+    /// Boot all nodes one after the other (gap_ms apart) and wait until the cluster is formed and
+    /// quiet.  Returns the primary's index.
+    pub fn form_cluster(&self, gap_ms: u64, max_ms: u64) -> Option<usize> {
+        let addrs = self.all_tcp();
+        for i in 0..self.nodes.len() {
+            self.boot(i, &addrs);
+            if !self.wait_listening(i, 2_000) {
+                return None;
+            }
+            sleep_ms(gap_ms);
+        }
+        let deadline = kernel::now() + max_ms * MS;
+        loop {
+            if self.agreed_primary().is_ok() && self.settle(300, 2_000) && self.agreed_primary().is_ok() {
+                return self.agreed_primary().ok();
+            }
+            if kernel::now() >= deadline {
+                return None;
+            }
+            sleep_ms(100);
+        }
+    }
+}
